@@ -221,6 +221,32 @@ func c20(c *Ctx) {
 			}
 		}
 		r.Check(okFix, "R20.H", "hosts:scheme-less-recovery-first", c.pos(hf.Pos()), "fixURLHost(u) runs before the host test")
+		// Hostname() strips a port - and the brackets of an address literal: "[t.me]" must not pass for t.me, so
+		// hosts written in brackets are refused before the membership test
+		{
+			var pre *an.Cond
+			for _, i := range an.Ifs(hf) {
+				cd, ok := an.Classify(i)
+				if !ok || cd.Kind != "call:strings.HasPrefix" {
+					continue
+				}
+				call, _ := i.Cond.(*ssa.Call)
+				if call == nil {
+					if u, isU := i.Cond.(*ssa.UnOp); isU {
+						call, _ = u.X.(*ssa.Call)
+					}
+				}
+				if call != nil && len(call.Call.Args) == 2 && strings.HasSuffix(tr.OriginString(call.Call.Args[0]), "URL.Host") && isConstString(call.Call.Args[1], "[") {
+					pre = cd
+				}
+			}
+			okLit := false
+			if pre != nil && guard != nil {
+				// the membership test is reached only when the host does not start with a bracket
+				okLit = len(an.Guarded(hf, []an.Edge{pre.EdgeWhen(false)}, []ssa.Instruction{guard.If})) == 0
+			}
+			r.Check(okLit, "R20.H", "hosts:address-literals-refused", c.pos(hf.Pos()), "a host written in brackets is refused before Hostname() (which strips the brackets) is compared with the reserved names")
+		}
 		// the recovered host is the text before the FIRST slash of the scheme-less link (t.me/joinchat/TOKEN has
 		// host t.me, not t.me/joinchat): the cut position comes from a first-occurrence search of "/" in u.Path
 		if fx := c.fn("R20.H", load.DeepPkg, "", "fixURLHost"); fx != nil {
